@@ -69,6 +69,15 @@ class Obj:
         self.attrs = attrs
 
 
+class SymFn:
+    """an uninterpreted function (sub-network, abstract hook): calls become ("call", name, args...)
+    terms; with n_out == 2 the result is a pair of its two components"""
+
+    def __init__(self, name, n_out=1):
+        self.name = name
+        self.n_out = n_out
+
+
 class Closure:
     def __init__(self, node, env, is_gen):
         self.node = node
@@ -129,9 +138,10 @@ def show(t, depth=0):
 
 
 class PEval:
-    def __init__(self, self_obj, split_dim_text="self._split_dim"):
+    def __init__(self, self_obj, split_dim_text="self._split_dim", shapes=None):
         self.self_obj = self_obj
         self.steps = 0
+        self.shapes = shapes or {}  # term -> concrete sizes of the non-batch axes
 
     # -- running a method -------------------------------------------------------------
     def call_method(self, fnode, args):
@@ -239,6 +249,10 @@ class PEval:
         if isinstance(st, ast.FunctionDef):
             is_gen = any(isinstance(n, (ast.Yield, ast.YieldFrom)) for n in ast.walk(st))
             env.set(st.name, Closure(st, env, is_gen))
+            return
+        if isinstance(st, ast.With):
+            # context managers (torch.no_grad(), ...) do not change values
+            self.block(st.body, env, yields)
             return
         if isinstance(st, ast.Raise):
             raise Undecided("raise reached")
@@ -425,6 +439,8 @@ class PEval:
             return ("method", base, name)
         if isinstance(base, list) and name in ("append", "extend"):
             return ("listmethod", base, name)
+        if isinstance(base, tuple) and base and base[0] == "size":
+            return ("method", base, name)
         if isinstance(base, tuple) and base and base[0] == "module":
             return ("modfn", base[1] + "." + name)
         raise Undecided("attribute %s of %r" % (name, base))
@@ -440,6 +456,12 @@ class PEval:
             idx = self.ev(sl, env)
             if idx == 0:
                 return Sym(("dim0", base[1]))
+            known = self.shapes.get(base[1])
+            if known is not None:
+                if isinstance(idx, slice) and idx.start == 1 and idx.stop is None and idx.step is None:
+                    return tuple(known)
+                if isinstance(idx, int) and 1 <= idx <= len(known):
+                    return known[idx - 1]
             return ("shape-part", base[1], repr(idx))
         if isinstance(base, Sym):
             # x[:, lo:hi]
@@ -477,8 +499,27 @@ class PEval:
             if fn_text == "tuple":
                 return tuple(self.iterate(args[0])) if args else ()
         kw = {k.arg: self.ev(k.value, env) for k in e.keywords if k.arg is not None}
+        if fn_text == "int" and len(e.args) == 1:
+            a = self.ev(e.args[0], env)
+            if isinstance(a, (int, float)):
+                return int(a)
+            raise Undecided("int of a symbolic value")
+        if fn_text == "torch.Size" and len(e.args) == 1:
+            a = self.ev(e.args[0], env)
+            if isinstance(a, (tuple, list)) and all(isinstance(x, int) for x in a):
+                return ("size", tuple(a))
+            raise Undecided("torch.Size of a symbolic value")
+        if fn_text in ("torch.zeros_like", "torch.empty_like") and e.args:
+            a = self.ev(e.args[0], env)
+            if isinstance(a, Sym):
+                return Sym(("zeros_like", a.term))
         if fn_text in ("np.prod", "numpy.prod", "math.prod"):
             a = self.ev(e.args[0], env)
+            if isinstance(a, (tuple, list)) and all(isinstance(x, int) for x in a):
+                r = 1
+                for x in a:
+                    r *= x
+                return r
             if isinstance(a, Shape):
                 return Sym(("numel", a.name))
             raise Undecided("np.prod of %r" % (a,))
@@ -536,6 +577,17 @@ class PEval:
                 args.append(self.ev(a, env))
         if isinstance(f, Closure):
             return self.call_closure(f, args)
+        if isinstance(f, SymFn):
+            targs = tuple(a.term if isinstance(a, Sym) else a for a in args) + tuple((k, v.term if isinstance(v, Sym) else v) for k, v in sorted(kw.items()))
+            t = ("call", f.name) + targs
+            if f.n_out == 2:
+                return (Sym(("item", t, 0)), Sym(("item", t, 1)))
+            return Sym(t)
+        if isinstance(f, tuple) and f and f[0] == "method" and isinstance(f[1], tuple) and f[1] and f[1][0] == "size" and f[2] == "numel":
+            r = 1
+            for x in f[1][1]:
+                r *= x
+            return r
         if isinstance(f, (Stage, Bound)):
             st = f if isinstance(f, Stage) else f.stage
             direction = "fwd" if isinstance(f, Stage) else f.direction
